@@ -37,7 +37,7 @@ go test -vet=off -count=1 ./... > $DST/suite.log 2>&1; C=$?
 tail -30 $DST/suite.log >> $LOG
 echo "RESULT demo_clean_exit=$A demo_patched_exit=$B build=$C0 suite_exit=$C" | tee -a $LOG
 for P in $PROPS; do
-  mkdir -p /var/tmp/scv_$NAME; rm -rf /var/tmp/scv_$NAME/*; cp -r /verif/spec /verif/known_findings.json /var/tmp/scv_$NAME/ 2>/dev/null
+  mkdir -p /var/tmp/scv_$NAME; rm -rf /var/tmp/scv_$NAME/*; cp -r /verif/spec /verif/bounded /verif/known_findings.json /var/tmp/scv_$NAME/ 2>/dev/null
   echo "== check $P on patched tree" | tee -a $LOG
   /verif/bin/vc check -prop $P -repo $WT -verif /var/tmp/scv_$NAME 2>&1 | cut -c1-300 | tee -a $LOG | tail -6
   rm -rf /var/tmp/scv_$NAME
